@@ -1057,7 +1057,10 @@ class TorConfig:
                         else:
                             initial = [default]
                 else:
-                    initial = [self.parsers[rn].parse(v)]
+                    initial = self.parsers[rn].parse(v)
+                    if not isinstance(initial, list):
+                        # several FooPort lines arrive as a list already
+                        initial = [initial]
                 self.config[rn] = _ListWrapper(
                     initial, functools.partial(self.mark_unsaved, rn))
 
